@@ -54,12 +54,7 @@ func (r *Receiver) SegmentHandlerFunc(w http.ResponseWriter, req *http.Request) 
 		http.Error(w, "Failed to find valid stream", http.StatusBadRequest)
 		return
 	}
-	ch, ok := r.channelMgr.GetChannel(stream.chName)
-	if !ok {
-		r.channelMgr.AddChannel(r.ctx, stream.chName, stream.chDir)
-		slog.Debug("Created new  channel", "name", stream.chName, "dir", stream.chDir)
-		ch, _ = r.channelMgr.GetChannel(stream.chName)
-	}
+	ch := r.channelMgr.GetOrAddChannel(r.ctx, stream.chName, stream.chDir)
 	if ch.ignore {
 		slog.Debug("Dropping stream", "chName", stream.chName, "path", path)
 		discardUpload(w, req, http.StatusOK)
